@@ -368,7 +368,12 @@ func ruleMapComparisonSymmetric(p *Prog, r *Report, pkgs map[string]bool, floor 
 			}
 		}
 	}
-	r.floor("R-EQm", "cross lookups between two maps of one type", n, floor)
+	if floor > 0 {
+		r.floor("R-EQm", "cross lookups between two maps of one type", n, floor)
+	} else {
+		// the shape may legitimately disappear (comma-ok lookups need no key-set check)
+		r.note("R-EQm: %d cross lookups without comma-ok between two maps of one type", n)
+	}
 	// checkExtra applies its closure in both orders
 	for _, fn := range allModFuncs(p) {
 		base := shortName(fn)
